@@ -252,6 +252,59 @@ class CheckRun:
         return True
 
     # ------------------------------------------------------------------
+    def kernel_link(self):
+        """Regenerate coq/gen/<pid>/GenK_<pid>.v from the lerax source under test (harness/translate/kernels.py) and re-check
+        coq/link/<pid>_link.v: theorems stating that the generated definitions equal the hand-written models / specifications
+        the property theorems are about.  A source that no longer translates, or a link theorem that no longer checks, is a
+        broken proof obligation (reported through a concrete failing input when the numeric search finds one)."""
+        from harness.translate import kernels
+        from harness.translate.ir import TranslateError
+        link = COQ / "link" / f"{self.pid}_link.v"
+        names = re.findall(r"^\s*Theorem\s+(\w+)", link.read_text(), re.M)
+        self.link_theorems = names
+        self.obligations += len(names)
+        self.theorems = list(self.theorems) + [f"link:{n}" for n in names]
+        try:
+            import lerax as _lerax
+            src = Path(_lerax.__file__).resolve().parent.parent
+            if "LERAX_SRC" not in os.environ:
+                os.environ["LERAX_SRC"] = str(src)
+            gen = kernels.generate(self.pid, COQ)
+        except TranslateError as e:
+            self.log(f"kernel translator failed closed: {e}")
+            self.violations.append(Violation("proof-broken", f"{self.pid}/kernel-translator",
+                                             f"the lerax source no longer translates into the generated Coq definitions: {e}"))
+            self.extra_cov["kernel_link"] = {"generated": False, "error": str(e)[:500]}
+            return False
+        base = ["coqc", "-R", str(COQ / "theories"), "Lerax", "-Q", str(gen.parent), "LeraxGen",
+                "-w", "-notation-overridden,-deprecated-hint-without-locality,-deprecated-instance-without-locality"]
+        out_all = ""
+        for f, tmo in ((gen, 300), (link, 900)):
+            try:
+                rc, out = sh(base + [str(f)], timeout=tmo, cwd=str(COQ))
+            except subprocess.TimeoutExpired:
+                rc, out = 124, "timeout"
+            out_all += out
+            if rc != 0:
+                tail = "\n".join(out.splitlines()[-15:])
+                self.log(f"kernel link failed ({f.name}):\n" + tail)
+                self.violations.append(Violation("proof-broken", f"{self.pid}/kernel-link",
+                                                 f"coq/link/{self.pid}_link.v no longer checks against the definitions regenerated from "
+                                                 f"the lerax source ({', '.join(k.file + ':' + k.func for k in kernels.KERNELS[self.pid])})",
+                                                 extra={"log": tail, "theorems": names}))
+                self.extra_cov["kernel_link"] = {"generated": True, "checked": False, "file": str(gen)}
+                return False
+        axioms = set(re.findall(r"^([A-Za-z_][\w']*(?:\.[\w']+)+)\s*(?::|$)", out_all, re.M))
+        self.axioms = sorted(set(self.axioms) | axioms)
+        self.discharged += len(names)
+        self.extra_cov["kernel_link"] = {
+            "generated": True, "checked": True, "file": f"coq/gen/{self.pid}/GenK_{self.pid}.v", "link": f"coq/link/{self.pid}_link.v",
+            "theorems": names, "sources": [f"{k.file}::{(k.cls + '.') if k.cls else ''}{k.func}" for k in kernels.KERNELS[self.pid]],
+            "sha256_16": hashlib.sha256(gen.read_bytes()).hexdigest()[:16]}
+        self.log(f"kernel link ok: {len(names)} theorems re-checked against definitions regenerated from the source")
+        return True
+
+    # ------------------------------------------------------------------
     def run_coq_cases(self, module: str, cases: list[str], funcs=("agree", "holds"), shard=300,
                       case_type=None, preamble="", timeout=1500):
         """Evaluate boolean check functions of `module` on Coq-literal cases.
